@@ -90,6 +90,9 @@ class MG(da.Solver):
         """
         super().update_params(dim, mass_coeff, diffusion_coeff)
         self.smoother.update_params(dim, mass_coeff, diffusion_coeff)
+        self.heterogeneous = isinstance(self.mass_coeff, np.ndarray) or isinstance(
+            self.diffusion_coeff, np.ndarray
+        )
 
     def operator(self, x: np.ndarray, h: float) -> np.ndarray:
         """The solution operator for the problem
